@@ -743,7 +743,7 @@ def sampling_program(name, struct):
         g, args = target(gf, pos, kw)
         tr = g.simulate(k0, args)
         alts = {}
-        for fname, f in simulate_forms(gf, r, variant, names, A0, ss, k0, limit=1 if name in HEAVY else 3).items():
+        for fname, f in simulate_forms(gf, r, variant, names, A0, ss, k0, limit=1).items():
             t = f()
             alts[fname] = (t.get_retval(), t.get_score())
         imp_n = g.importance(k1, C.n(), args) if name not in HEAVY else None
